@@ -697,6 +697,7 @@ static void c12_run(int tier, long cfg)
     pa.faults = 1;
     pa.fault_window = 1;
   }
+  if (pa.scn == SC_FORK) pa.fork_child_first = 1; /* the forked side runs on to where start returns 0: its signal state is examined there */
   body(&pa);
 }
 
